@@ -537,17 +537,21 @@ fn rt<T: Serialize + DeserializeOwned>(
             Ok(Err(e)) => g.restored_ok = Ok(Err(e.clone())),
             Ok(Ok(r)) => {
                 g.tree2 = Some(record(r));
+                // serialise again and restore again BEFORE anything is observed on `r` (observations may fill caches
+                // behind a RefCell, e.g. the compiled regex of the vectoriser parameters)
+                g.reser = Some(bincode::serialize(r).map_err(|e| e.to_string()));
+                let r2: Option<Result<Result<T, String>, String>> = match &g.reser {
+                    Some(Ok(b2)) => Some(guarded(AssertUnwindSafe(|| bincode::deserialize::<T>(b2).map_err(|e| e.to_string())))),
+                    _ => None,
+                };
+                let t3 = match &r2 { Some(Ok(Ok(r2))) => Some(record(r2)), _ => None };
                 g.obs1 = Some(guarded(AssertUnwindSafe(|| obs(r))));
                 g.eq = eq.map(|f| f(v, r));
-                g.reser = Some(bincode::serialize(r).map_err(|e| e.to_string()));
-                if let Some(Ok(b2)) = &g.reser {
-                    let r2: Result<Result<T, String>, String> = guarded(AssertUnwindSafe(|| bincode::deserialize::<T>(b2).map_err(|e| e.to_string())));
-                    g.gen2 = Some(match r2 {
-                        Ok(Ok(r2)) => Ok((record(&r2), guarded(AssertUnwindSafe(|| obs(&r2))), eq.map(|f| f(v, &r2)))),
-                        Ok(Err(e)) => Err(format!("bincode::deserialize failed: {}", e)),
-                        Err(p) => Err(format!("bincode::deserialize panicked: {}", p)),
-                    });
-                }
+                g.gen2 = r2.map(|r2| match r2 {
+                    Ok(Ok(r2)) => Ok((t3.unwrap_or_else(|| Err("not recorded".into())), guarded(AssertUnwindSafe(|| obs(&r2))), eq.map(|f| f(v, &r2)))),
+                    Ok(Err(e)) => Err(format!("bincode::deserialize failed: {}", e)),
+                    Err(p) => Err(format!("bincode::deserialize panicked: {}", p)),
+                });
             }
         }
         if !o.no_json && all_finite(tree) {
